@@ -234,3 +234,26 @@ def body(cfg):
     for m in range(dim):
         a, sg = orient[m]
         S.claim(f"length_and_voxel_size_axis_{'xyz'[a]}", S.and_(S.eq(cs.voxel_size["xyz"[a]], h[m]), S.eq(cs.length(3, "xyz"[a]), 3 * h[m])))
+    # ---- the origin of the SAME image object changes after its coordinate system was used (reset_origin,
+    # then assignment): voxel zero, the opposite corner and point -> voxel follow the origin the image has now
+    dflt = [0] * dim
+    for m in range(dim):
+        a, sg = orient[m]
+        dflt[a] = dims[m] if sg < 0 else 0
+    img.reset_origin()
+    n_org = [S.real(f"n{e}", lo=-1000, hi=1000) for e in range(dim)]
+    for label, want in (("reset_origin", dflt), ("assigning_an_origin", n_org)):
+        if label == "assigning_an_origin":
+            img.origin = darsia.Coordinate(np.array(n_org, dtype=object)) if S.instrumented() else darsia.Coordinate(n_org)
+        cs2 = img.coordinatesystem
+        p2 = [0] * dim
+        for m in range(dim):
+            a, sg = orient[m]
+            p2[a] = want[a] + sg * (v[m] + t[m]) * h[m]
+        opp2 = img.opposite_corner
+        S.claim(f"after_{label}_voxel_zero_corner_and_interior_points_follow_the_new_origin", S.and_(
+            S.eq(list(img.origin), want),
+            S.eq(list(cs2.coordinate([0] * dim)), want),
+            S.eq([opp2[a] - want[a] for a in range(dim)], disp),
+            S.eq(list(cs2.voxel(list(p2))), v),
+        ))
